@@ -365,6 +365,7 @@ func genFormats(r *runner, rng *hx.Rng, thorough bool) {
 		func(id int) Cred { return Cred{ID: id, Issuer: 50, Subject: 60, Types: []int{1}, JWT: 1} },
 		func(id int) Cred { return Cred{ID: id, Issuer: 50, Subject: 60, Types: []int{1}, JWT: 2} },
 		func(id int) Cred { return Cred{ID: id, Issuer: 50, Subject: 60, Types: []int{1}, JWT: 1, SD: true} },
+		func(id int) Cred { return Cred{ID: id, Issuer: 50, Subject: 60, Types: []int{1}, Proofs: []int{3}} },
 	}
 
 	rounds := 5
@@ -899,6 +900,10 @@ func genDisclosure(r *runner, rng *hx.Rng, thorough bool) {
 				c.JWT = 1
 			case 4:
 				c.MapSubject = g.Intn(3) == 0
+			case 5:
+				if g.Intn(3) == 0 { // BBS+ signing and proof derivation are slow: a few per run
+					c.Proofs = []int{3}
+				}
 			}
 
 			for _, k := range keys {
